@@ -525,6 +525,26 @@ func fullBase(reg *s.Reg, over map[string]string, minimal bool) *s.V {
 	return v
 }
 
+// minimalFull: the whole config with the component of the slot reduced to its validated options and resource keys.
+// Components whose constructor wants more than that (uris/file conflicts...) are reported by name in the evidence
+// notes and skipped here only when the MAXIMAL base of the same component does not construct either.
+func minimalFull(reg *s.Reg, slot, name string) *s.V {
+	full := fullBase(reg, map[string]string{"/pools/0/" + slot: name}, false)
+	min := fullBase(reg, map[string]string{"/pools/0/" + slot: name}, true)
+	at := s.Path{{Key: "pools"}, {Idx: 0, IsIdx: true}, {Key: slot}}
+	fn, mn := full.At(at), min.At(at)
+	if fn == nil || mn == nil {
+		return nil
+	}
+	for _, kv := range fn.M {
+		k := strings.ToLower(kv.Key)
+		if (k == "file" || k == "decoder" || k == "source") && mn.Get(kv.Key) == nil {
+			mn.M = append(mn.M, kv)
+		}
+	}
+	return full.ReplaceAt(at, mn)
+}
+
 // calibrate: make the base valid for the real decoder by dropping at most two optional keys of the
 // map at `at` (semantic conflicts such as file+uris are outside the decoding rules).
 func calibrate(v *s.V, at s.Path, ok func(*s.V) bool) *s.V {
@@ -1047,6 +1067,12 @@ func gen(r *vh.Rand, tier string) []string {
 				continue
 			}
 			em.emit("base", nil, caseEnv{}, base)
+			// the smallest configuration of the component: only the options a validate tag insists on (plus the
+			// resource keys a constructor needs: file, decoder); everything else is the registered default, and
+			// with those defaults the component must decode and its factories must deliver
+			if mb := minimalFull(reg, sl.key, e.Name); mb != nil {
+				em.emit("base", nil, caseEnv{}, mb)
+			}
 			if first {
 				// everything outside the component slots: top level, pool level, log, monitoring
 				first = false
@@ -1132,6 +1158,16 @@ func gen(r *vh.Rand, tier string) []string {
 			emc.emit("base", nil, caseEnv{}, two)
 			emc.emit("base", nil, caseEnv{}, two.InsertKey(s.Path{{Key: "pools"}, {Idx: 1, IsIdx: true}}, "discard_overflow", s.Bool(false)))
 			emc.emit("base", nil, caseEnv{}, two.InsertKey(pool, "discard_overflow", s.Bool(false)))
+			// discard_overflow written as a placeholder: the pre-pass sees a string there, the decoder a boolean
+			dpath := pool.With(s.Step{Key: "discard_overflow"})
+			for _, bv := range []bool{false, true} {
+				text := strconv.FormatBool(bv)
+				emc.emit("ph:"+s.Bool(bv).Token(), dpath, caseEnv{env: map[string]string{envVar: text}},
+					lower.InsertKey(pool, "discard_overflow", s.Str("${env:"+envVar+"}")))
+				emc.emit("ph:"+s.Bool(bv).Token(), dpath, caseEnv{props: map[string]string{propFile + "#" + propKey: text}},
+					lower.InsertKey(pool, "discard_overflow", s.Str("${property:"+propFile+"#"+propKey+"}")))
+			}
+			emc.emit("phe", dpath, caseEnv{}, lower.InsertKey(pool, "discard_overflow", s.Str("${env:"+envUnset+"}")))
 			emc.emit("unk:"+vh.HexS(unkKey), pool, caseEnv{}, lower.InsertKey(pool, unkKey, s.Int(1)))
 			emc.emit("unk:"+vh.HexS(unkKey), nil, caseEnv{}, lower.InsertKey(nil, unkKey, s.Int(1)))
 			for _, key := range []string{"rps", "startup", "gun", "ammo", "result"} {
